@@ -293,3 +293,8 @@ func guardGlobal(i *interpreter, g *ssa.Global) {
 	GuardHits[name]++
 	panic(pathAbort{"unsupported: read of " + name + ", a variable set by an initialiser that is not run (add the package to the unit's init list)"})
 }
+
+func init() {
+	// errors.init computes reflectlite.TypeOf((*error)(nil)).Elem(); answered by the reflect model
+	lateModels["internal/reflectlite.TypeOf"] = ext۰reflect۰TypeOf
+}
